@@ -45,8 +45,8 @@ void h_range_insert_new(void) {
     zckRangeItem *r = range_insert_new(zck, prev, next, in.start, in.end, info, idx, in.add_index);
     /* a failed insertion must leave the neighbours as they were: the caller goes on to walk and
      * free the list (zck_get_missing_range -> zck_range_free) */
-    V_ASSERT(r != NULL || prev == NULL || prev->next == old_pn, "C10,C03.range_insert_new.failure_leaves_predecessor_link_untouched");
-    V_ASSERT(r != NULL || next == NULL || next->prev == old_np, "C10,C03.range_insert_new.failure_leaves_successor_link_untouched");
+    V_ASSERT(r != NULL || prev == NULL || prev->next == old_pn, "C10.range_insert_new.failure_leaves_predecessor_link_untouched");
+    V_ASSERT(r != NULL || next == NULL || next->prev == old_np, "C10.range_insert_new.failure_leaves_successor_link_untouched");
     V_COVER(r != NULL && prev != NULL && next != NULL && in.add_index);
     V_COVER(r != NULL && prev == NULL && next == NULL && !in.add_index);
     V_COVER(r != NULL && prev == NULL && next != NULL);
